@@ -15,8 +15,12 @@ import Tickit.Model.RBFlush
   * the toplevel instance (`src/tickit.c`: `tickit_build` for a given terminal, `tickit_get_rootwin`,
     `tickit_get_term`, `tickit_ref/unref` → `tickit_destroy`, `tickit_watch_later`, `tickit_watch_timer_after_msec`,
     `tickit_watch_cancel`, `tickit_tick` with the default event loop: `tickit_evloop_invoke_timers`, the watch on the
-    terminal's input and `on_term_timeout`).  The application keeps its own reference to the root window and to the
-    terminal it obtains from the instance.  The deferred `_flush_fn` calls the root window queues on the instance
+    terminal's input and `on_term_timeout`).  A watch, and a handler bound on the terminal, may register further
+    watches while it runs (`TAct.timerAt`: `tickit_watch_timer_at_tv` for an instant of the harness's clock, possibly
+    one that has passed - the new entry then stands in front of the queue the loop of `tickit_evloop_invoke_timers` is
+    working on; `TAct.later`: `tickit_watch_later`): `invokeTimers` is that loop, which unlinks the head before it
+    invokes it and looks at the queue again afterwards.  The application keeps its own reference to the root window
+    and to the terminal it obtains from the instance.  The deferred `_flush_fn` calls the root window queues on the instance
     (`_request_later_processing`) are not tracked: the harness flushes the root window before every tick, and
     handlers in histories with an instance make no restacking requests, so that those calls find nothing to
     reorder (the model would be wrong about the window order otherwise).
